@@ -2,8 +2,8 @@
 from core import Case, enc_b, enc_s
 from props.cardutil import digits, rb
 
-OBLIGATIONS = ["Psec.Props.C06.decodeBody_eq_spec", "Psec.Props.C06.decode_iso0_iff", "Psec.Props.C06.decode_iso2_iff", "Psec.Props.C06.decode_iso3_iff", "Psec.Props.C06.decode_iso4_field_iff", "Psec.Props.C06.decode_wrong_size", "Psec.Props.C06.decode_outcomes", "Psec.Props.C06.wellFormed_pin", "Psec.Props.C06.cross_format", "Psec.Props.C06.iso0_iso3_exclusive", "Psec.Props.C06.wellFormed_iso0_unique", "Psec.Props.C06.iso0_pan_binding", "Psec.Props.C06.iso4_pan_binding_partial", "Psec.Props.C06.iso4_pan_field_injective", "Psec.Props.C06.iso4_pan_field_injective_long"]
-EXTRA_MODULES = ["PsecModel.Lemmas.PanField"]
+OBLIGATIONS = ["Psec.Props.C06.decodeBody_eq_spec", "Psec.Props.C06.decode_iso0_iff", "Psec.Props.C06.decode_iso2_iff", "Psec.Props.C06.decode_iso3_iff", "Psec.Props.C06.decode_iso4_field_iff", "Psec.Props.C06.decode_wrong_size", "Psec.Props.C06.decode_outcomes", "Psec.Props.C06.wellFormed_pin", "Psec.Props.C06.cross_format", "Psec.Props.C06.iso0_iso3_exclusive", "Psec.Props.C06.wellFormed_iso0_unique", "Psec.Props.C06.iso0_pan_binding", "Psec.Props.C06.iso4_pan_binding_partial", "Psec.Props.C06.iso4_pan_field_injective", "Psec.Props.C06.iso4_pan_field_injective_long", "Psec.Props.C06.iso4_decipher_other_pan", "Psec.Props.C06.iso4_wrong_pan_reduction", "Psec.Props.C06.C06_iso4_binding_of_no_structured_hit"]
+EXTRA_MODULES = ["PsecModel.Lemmas.PanField", "PsecModel.Lemmas.Iso4Binding"]
 TRUSTED_BASE = ["Lean 4.33 kernel", "Spec/ISO9564.lean well-formedness predicates are my reading of ISO 9564-1", "format-4 PAN binding additionally assumes AES pseudo-randomness",
                 "correspondence harness and compiled driver"]
 RULE = ("every control nibble x every length nibble x bodies within two nibble-class deviations (digit / A-E / F) of a well-formed body for all four formats, plus uniformly "
